@@ -104,7 +104,11 @@ theorem pack_ident_eq (O : Oracle) (cx : Cx) (fx : Fx) (hp : cx.plain) : ∀ (t 
   | .leaf _, _, _, hi => by simp [Ty.packIdent, hp.1] at hi
   | .enum _ _, _, _, hi => by simp [Ty.packIdent] at hi
   | .lit _, _, _, hi => by simp [Ty.packIdent] at hi
-  | .opt _, _, _, hi => by simp [Ty.packIdent] at hi
+  | .opt t, v, hf, hi => by
+      have ih := pack_ident_eq O cx fx hp t v (by simpa [Frag] using hf) (by simpa [Ty.packIdent] using hi)
+      cases v with
+      | none => rw [pack]
+      | _ => rw [pack] <;> first | exact ih | (intro h; cases h)
   | .coll o _, _, _, hi => by cases o <;> simp [Ty.packIdent, hp.2.1] at hi
   | .map o _ _, _, _, hi => by cases o <;> simp [Ty.packIdent, hp.2.2] at hi
   | .chain _ _, _, _, hi => by simp [Ty.packIdent] at hi
